@@ -37,13 +37,12 @@ EncOK(e) ==
 
 ParseOK(e) ==
   LET ts == AbsToks(e.toks)  r == Reading(ts) IN
-  IF HasBadTag(e.toks) THEN ~e.out.ok /\ e.out.err = "InvalidTag" /\ e.out.tag = FirstBad(e.toks)
+  IF HasBadTag(e.toks) THEN ~e.out.ok                 \* C04: rejected, not skipped (which error value is not fixed)
   ELSE IF AllTokOK(e.toks) /\ r.ok /\ MaxNesting(ts) <= NestingDomain
        THEN /\ e.out.ok
             /\ e.out.msg.hdr = e.hdr
             /\ NormMsg(e.out.msg.groups) = NormMsg(r.v)
-            /\ e.pay_ok
-       ELSE (IF e.out.ok THEN TRUE ELSE e.out.err # "PANIC")
+       ELSE TRUE          \* outside C04's domain (totality there is C02's business, the payload C06's)
 
 (* C20: serialise to JSON with serde and deserialise again; the payload is not serialised *)
 SerdeOK(e) ==
